@@ -297,7 +297,9 @@ def calculate_lm(steps, rate, accel, accum="clear"):
     # Calculate final position. And, adjusted final position, with step position rounded
     #   "back" by 1, in cases where direction reverses. This correction means that we look
     #   for the *first* time step at the target position, not the *last*.
-    if (t_rev <= 1) or (s_rev >= steps): # Reversal by first step or after end of move
+    # No reversal within the move: rate changes sign by the first tick (t_rev < 1, or the
+    #   first-tick rate is exactly zero), or the step budget is used up before the reversal.
+    if (t_rev < 1) or (t_rev == 1 and temp_rate == 0) or (s_rev >= steps):
         t_rev = -1 # Set flag: No direction reversal during this move.
         if initial_rate_negative:
             pos_final = -steps
@@ -333,6 +335,8 @@ def calculate_lm(steps, rate, accel, accum="clear"):
         time_final_star = 0 # Fallback, if no solutions are found.
         two_a = mpmath.mpf(accel) # 2 * a = 2 * accel/2
         c_factor = accum_adj - mpmath.mpf(pos_f_adj) * 2147483648
+        if t_rev > 0: # After a reversal, the step happens one count *past* pos_f_adj * 2^31
+            c_factor += -1 if accel > 0 else 1
         discriminant = rate_effective * rate_effective - 2 * two_a * c_factor # b^2 - 4 a c
 
         neg_root = -1
